@@ -40,6 +40,8 @@ MB = [("trapz", "None"), ("simpson", "None"), ("cspline", "default"), ("cspline"
       ("cspline", "natural"), ("cspline", "clamped"), ("cspline", "periodic")]
 RANKDIMS = [(r, d) for r in (1, 2, 3, 4) for d in list(range(r)) + list(range(-r, 0))]
 OTHER = {1: (), 2: (2,), 3: (2, 3), 4: (2, 3, 2)}
+# the same ranks with axes of length 1 among the other dimensions (must be kept, not squeezed away)
+OTHER1 = {1: (), 2: (1,), 3: (3, 1), 4: (1, 3, 1)}
 EPS = {"float64": 2.220446049250313e-16, "float32": 1.1920928955078125e-07}
 
 
@@ -74,6 +76,14 @@ def cases(tier, seed):
                             if rank == 4 and (xg or dt != "float64"):
                                 continue
                             out.append(_cfg(m, bc, g, n, rank, dim, kd, xg, dt))
+                            if rank <= 2 and xg == 0 and kd == 0 and dim in (0, -1) and n in (4, 7):
+                                c2 = _cfg(m, bc, g, n, rank, dim, kd, xg, dt)
+                                c2["regrid"] = 1
+                                out.append(c2)
+                            if rank >= 2 and xg == 0 and dt == "float64" and g == "uniform" and n in (3, 5, 6):
+                                c1 = _cfg(m, bc, g, n, rank, dim, kd, xg, dt)
+                                c1["ones"] = 1
+                                out.append(c1)
     if tier != "quick":
         for plane in (1, 2, 3):
             for n in ns:
@@ -169,7 +179,7 @@ def run_case(cfg):
     xgrad = bool(cfg["xgrad"])
     plane, seed = cfg.get("plane", 0), cfg.get("seed", 0)
     axis = dim % rank
-    other = OTHER[rank]
+    other = (OTHER1 if cfg.get("ones") else OTHER)[rank]
     S = int(np.prod(other)) if other else 1
     viol, seen = [], set()
     errs, obs = {}, {}
@@ -192,12 +202,27 @@ def run_case(cfg):
     vec_t = torch.tensor(vec, dtype=torch.float64).to(dtype)
     coefs_all = np.concatenate([np.zeros((1, nb)), np.eye(nb), coef[None, :]], axis=0)
 
-    xg = x_t.clone()
-    if xgrad:
-        xg.requires_grad_()
     kw = {"method": method}
     if method == "cspline" and bc != "default":
         kw["bc_type"] = bc
+    keep = []
+    if cfg.get("regrid"):
+        # object history: an SQuad is built on a grid tensor, the SAME tensor object is then updated in place to the
+        # grid of this case and a new SQuad is built on it (nothing may be remembered per tensor object)
+        x0_t, _ = ic.grid("cheb" if cfg["grid"] != "cheb" else "uniform", n, dtype, seed, plane)
+        xg = (x0_t * 1.7 + 0.3).clone()
+        o0 = call(SQuad, xg, **kw)
+        nexec += 1
+        if o0.exc is None:
+            keep.append(o0.value)
+            y0 = torch.ones(n, dtype=dtype)
+            call(o0.value.cumsum, y0)
+        with torch.no_grad():
+            xg.copy_(x_t)
+    else:
+        xg = x_t.clone()
+    if xgrad:
+        xg.requires_grad_()
     o = call(SQuad, xg, **kw)
     nexec += 1
     if o.exc is not None:
